@@ -365,6 +365,26 @@ func (x *Exec) specHelper(o *types.Func, e *ast.CallExpr, st *State, env *Env) (
 	case "allocated":
 		s := x.eval(e.Args[0], st, env).(Slice)
 		return []Value{Scalar{fmt.Sprintf("(and (>= %s 0) (< %s %s))", s.Arr, s.Arr, st.alloc), boolTI}}, true
+	case "ifaceTo":
+		v := x.eval(e.Args[0], st, env)
+		h, ok := v.(Scalar)
+		if !ok {
+			x.abort("ifaceTo of non-interface value")
+		}
+		pv, ok := x.ifaceObj[h.T]
+		if !ok {
+			x.abort("ifaceTo: the dynamic value of the interface is not known here")
+		}
+		return []Value{pv}, true
+	case "isNewObject":
+		pv, ok := x.eval(e.Args[0], st, env).(Ptr)
+		if !ok || pv.To == nil {
+			x.abort("isNewObject of non-pointer")
+		}
+		if pv.To.Sl == nil && !strings.HasPrefix(pv.To.Path, "*") {
+			return []Value{Scalar{"true", boolTI}}, true
+		}
+		return []Value{Scalar{"false", boolTI}}, true
 	case "tz64", "lz64":
 		v := x.eval(e.Args[0], st, env).(Scalar)
 		return []Value{Scalar{app(o.Name(), v.T), intTI}}, true
@@ -502,8 +522,19 @@ func (x *Exec) evalQuant(kind string, e *ast.CallExpr, st *State, env *Env) Valu
 	}
 	b := body.T
 	if len(trigs) == 0 && len(objs) == 1 {
-		trigs = dedup(auto)
+		// single variable: only heap reads at the re-indexed variable are used as triggers
+		// (ghost-map reads such as g[t] would create matching loops with g[t+1] in the body)
+		var hs []string
+		for _, t := range auto {
+			if !strings.HasPrefix(t, "ghost:") {
+				hs = append(hs, t)
+			}
+		}
+		trigs = dedup(hs)
 	} else if len(trigs) == 0 {
+		for i, t := range auto {
+			auto[i] = strings.TrimPrefix(t, "ghost:")
+		}
 		// multi-pattern: one anchor read per bound variable
 		var parts []string
 		for _, o := range objs {
@@ -673,6 +704,20 @@ func (x *Exec) callFunc(fn *types.Func, sel *ast.SelectorExpr, e *ast.CallExpr, 
 			rt := x.typeOf(sel.X)
 			if n, ok := rt.(*types.Named); ok {
 				key = n.Obj().Pkg().Name() + "." + n.Obj().Name() + "." + fn.Name()
+			}
+		}
+	}
+	// typed specialisation for functions taking an interface: f@T when the argument is a *T
+	for i := 0; i < sig.Params().Len() && i < len(e.Args); i++ {
+		if _, isIface := sig.Params().At(i).Type().Underlying().(*types.Interface); !isIface {
+			continue
+		}
+		at := x.typeOf(e.Args[i])
+		if pt, ok := at.(*types.Pointer); ok {
+			if n, ok := pt.Elem().(*types.Named); ok {
+				if ct, ok := x.w.Contracts[key+"@"+n.Obj().Name()]; ok {
+					return x.applyContract(ct, nil, nil, e, st, env, nil)
+				}
 			}
 		}
 	}
@@ -1014,14 +1059,21 @@ func (x *Exec) havocModifies(ct *Contract, sc specCtx, st, pre *State, env2 *Env
 		if pkg == nil {
 			pkg = x.pkg
 		}
-		ex, err := x.checkSpec(m, sc.pos, pkg, sc.resTypes)
+		var ex ast.Expr
+		var err error
+		envM := env2
+		if sc.explicit != "" {
+			ex, envM, err = x.checkExplicit(m, "any", sc, pkg, env2)
+		} else {
+			ex, err = x.checkSpec(m, sc.pos, pkg, sc.resTypes)
+		}
 		if err != nil {
 			x.abort("modifies %s: %v", m, err)
 		}
 		saved := x.pkg
 		x.pkg = pkg
 		x.specDepth++
-		lv := x.evalLV(ex, pre, env2)
+		lv := x.evalLV(ex, pre, envM)
 		x.specDepth--
 		x.pkg = saved
 		pms = append(pms, pathMod{lv})
